@@ -126,6 +126,7 @@ structure St where
   segPen : Rat := 10              -- routingParameter(segmentPenalty): library default unless a `pens` line says otherwise
   sev : Array SEv := #[]          -- events of the current transaction
   sres : List SearchRes := []     -- searches of the current transaction that were dumped and judged
+  lastFailed : List SearchRes := []  -- per connector: the judged failed searches of the last transaction that searched it
   sgx : Array Rat := #[]          -- graph lines of the search being read
   sgy : Array Rat := #[]
   sgf : Array Nat := #[]
@@ -490,7 +491,10 @@ def checkSearches (s : St) : St := Id.run do
             s := bump s "search.route-differs"
             s := { s with divs := s!"step {s.stepNo}: connector {h.conn}: A* search: library route {showR h.path} (cost {ratToString ci}) ≠ model route {showR r} (cost {ratToString cm}); end-point list {endPts.map (fun p => showP (ofPt p))}" :: s.divs }
       | _, _ => pure ()
-  return s
+  -- a connector that is not searched in a transaction (no action queued: processTransaction returns at once) keeps
+  -- its route, and the judgement of its last search
+  let searchedNow := s.sev.toList.filterMap (fun e => match e with | .search h _ => some h.conn | _ => none)
+  return { s with lastFailed := s.lastFailed.filter (fun r => !searchedNow.contains r.conn) ++ s.sres.filter (!·.libFound) }
 
 structure EndObs where
   hyper : Bool         -- the connector has a junction end (member of a hyperedge)
@@ -606,7 +610,7 @@ def checkEnds (s : St) : St := Id.run do
   let np := noPathConns s og
   for c in np do
     let cr := (s.conns.find? (·.id == c)).getD default
-    let judged := s.sres.filter (fun r => r.conn == c && !r.libFound)
+    let judged := s.lastFailed.filter (·.conn == c)
     if judged.isEmpty then s := bump s "nopath.search-not-modelled"
     else if judged.all (·.modelRoute.isNone) then s := bump s "nopath.model-agrees"
     if let some r := judged.findSome? (·.modelRoute) then
